@@ -232,6 +232,26 @@ add('C08', "(1) PegSem's meta expressions (@int @uint @float @bool @name) evalua
     "TLA+ spec PegSem (meta expressions, outcome domain) evaluated by TLC + replay on both input implementations + fault-oriented text/grammar mutation",
     "5 C08")
 
+
+# round 6 additions (appended to the level texts)
+ROUND6 = {
+ 'C01': " Rules whose names differ only in underscores, tried at the same position, are in the universe.",
+ 'C02': " Object-model building requested at parse time (asmodel=True, a model-builder semantics) is given to both back-ends in a fresh interpreter, also on one parser object that is then asked for a plain parse.",
+ 'C06': " A semantics object assigned to the model after a first parse, and then replaced, must be the one whose actions run.",
+ 'C07': " Grammars in which a typed node was also held by a node that backtracking discarded; one walker object used again after a complete and after an aborted walk.",
+ 'C09': " History independence over a pool of calls (harness/historypool.py: every ordered pair of calls adjacent, ideal response = the call alone in a fresh interpreter): lexical settings given at compile time, at parse time and through tatsu.parse() configure that call only.",
+ 'C10': " History independence over pools of public-API calls (harness/historypool.py; ApiHistory!HistoryIndependent): constants with {name} interpolation over several grammars, names that shadow builtins, overrides next to constants, typed rules with and without model building, generated parsers, compile() under settings that make the grammar text fail.",
+ 'C11': " A @name rule written as a based rule (name < base); one generated parser object across calls whose ignorecase setting changes.",
+ 'C12': " A rule that passes through the AST of an inner invocation of itself and is answered from the memo; line information of a pool of texts before and after other texts and a grammar with #include were handled.",
+ 'C13': " The pretty-printed text of grammars whose rule parameters are equal as Python values but differ in type (1 / True / 1.0), in every order in one interpreter.",
+ 'C15': " The accept / reject decision of compile() for a grammar text after calls with the same or another text under arguments that make it fail (history pool).",
+ 'C16': " spec/OptPublish.tla: the order copy / analyse / publish / release in Grammar.optimized(); TLC proves AnalysedBeforeUse for the code's order and refutes early publication; the refuting schedule (thread 1 inside the left-recursion analysis, thread 2 entering) is forced onto the real code. Interlocking cycles over three rules are enumerated exhaustively.",
+ 'C18': " Real-pool scenarios with a user exception that pickles but does not unpickle, and with TatSu's own VisualPayload class where the function raises a genuine TypeError for one payload (same worker, same run, a later run).",
+ 'C20': " Styles derived (fmt, bold) from a style that was rendered and measured before must equal freshly constructed ones; spaces of category Zs in the repr round trip.",
+}
+for _pid, _t in ROUND6.items():
+    C[_pid]['level_claimed']['text'] += _t
+
 import sys
 checks = [C[p] for p in props if p in C]
 na = [{"property_id": p, "reason": "check not built yet in this round (build in progress; DESIGN.md section 10 gives the order)"} for p in props if p not in C]
